@@ -127,38 +127,6 @@ theorem reset_restores_window {s s' : State} {id code : Nat} (h : s.reset id cod
       omega
     · simp at hsub
 
-/-! ### 0-RTT rejection -/
-
-theorem zeroRttDir_scalars {s s' : State} {d : Dir} (h : s.zeroRttDir d = some s') :
-    s'.maxData = s.maxData ∧ s'.unackedData = s.unackedData ∧ s'.side = s.side ∧
-    s'.next = s.next.set d 0 := by
-  unfold State.zeroRttDir at h
-  osplit h
-  all_goals (rw [← h]; exact ⟨rfl, rfl, rfl, rfl⟩)
-
-/-- what `zero_rtt_rejected` does to the sender's scalars: `max_data` and `unacked_data` are kept -/
-theorem zeroRttRejected_scalars {s s' : State} (h : s.zeroRttRejected = some s') :
-    s'.maxData = s.maxData ∧ s'.unackedData = s.unackedData ∧ s'.dataSent = 0 ∧
-    s'.next = ⟨0, 0⟩ ∧ s'.sendStreams = 0 ∧ s'.connectionBlocked = [] := by
-  unfold State.zeroRttRejected at h
-  osplit h
-  have h1 := zeroRttDir_scalars ‹State.zeroRttDir s Dir.bi = some _›
-  have h2 := zeroRttDir_scalars ‹State.zeroRttDir _ Dir.uni = some _›
-  rw [← h]
-  refine ⟨h2.1.trans h1.1, h2.2.1.trans h1.2.1, rfl, ?_, rfl, rfl⟩
-  simp only
-  rw [h2.2.2.2, h1.2.2.2]
-  rfl
-
-/-- `zero_rtt_rejected` followed by `set_params p`: what the sender accounting looks like -/
-theorem rejected_then_params {s s1 : State} (p : Params) (h : s.zeroRttRejected = some s1) :
-    (s1.setParams p).maxData = Nat.max s.maxData p.initialMaxData ∧
-    (s1.setParams p).unackedData = s.unackedData ∧
-    (s1.setParams p).dataSent = 0 ∧ (s1.setParams p).next = ⟨0, 0⟩ ∧
-    (s1.setParams p).max = ⟨p.initialMaxStreamsBidi, p.initialMaxStreamsUni⟩ := by
-  obtain ⟨z1, z2, z3, z4, _, _⟩ := zeroRttRejected_scalars h
-  simp only [State.setParams, State.receivedMaxData, z1, z2, z3, z4, and_self]
-
 /-! ### running operation lists -/
 
 /-- run a list of operations from `s`, extending the history `h` -/
@@ -200,33 +168,5 @@ theorem reach_run' {c : Config} {h : Hist} {s : State} (r : Reach c h s) (ops : 
     (hp : ∀ o ∈ ops, o.isPlain = true) (hr : (runOps s h ops).isSome = true) :
     Reach c ((runOps s h ops).get hr).2 ((runOps s h ops).get hr).1 :=
   reach_run ops r hp (Option.some_get hr).symm
-
-/-- connection-level limit conveyed since the last 0-RTT rejection -/
-def peerMaxDataSince : Hist → Nat
-  | [] => 0
-  | (.rejected, _) :: _ => 0
-  | (.params p, _) :: h => Nat.max p.initialMaxData (peerMaxDataSince h)
-  | (.maxData n, _) :: h => Nat.max n (peerMaxDataSince h)
-  | _ :: h => peerMaxDataSince h
-
-/-- F10 witness: remembered `initial_max_data` 1 000 000, 0-RTT rejected, the server now grants only
-    2 000 — and a 10 000 byte write is accepted -/
-def F10_ops : List Op :=
-  [ .new ⟨.client, 0, 0, 1000000, 1000000, 1000000⟩,
-    .params ⟨100000, 100000, 100000, 10, 10, 1000000⟩,
-    .rejected,
-    .params ⟨100000, 100000, 100000, 10, 10, 2000⟩,
-    .open_ .bi,
-    .write 0 10000 ]
-
-/-- F11 witness: 13 bytes written in 0-RTT, rejected: `unacked_data` is still 13 on the fresh
-    connection state -/
-def F11_ops : List Op :=
-  [ .new ⟨.client, 0, 0, 1000, 1000, 1000⟩,
-    .params ⟨100, 100, 100, 10, 10, 1000⟩,
-    .open_ .bi,
-    .write 0 13,
-    .rejected,
-    .params ⟨100, 100, 100, 10, 10, 1000⟩ ]
 
 end QM.Streams
